@@ -6,7 +6,7 @@
    transaction-id bookkeeping, proved here for every interleaving that contains no application commit inside
    the window after an empty own transaction — and refuted inside that window (known finding F8). *)
 From LS Require Import Base.Bytes Base.Res Header.Model Merge.Model Merge.Version Merge.Proofs
-  Instance.Ids Instance.IdsProofs.
+  Strategy.Model Shadow.Model Instance.Model Instance.SyncLoop Instance.Ids Instance.IdsProofs Instance.StepShapes Instance.ReceiveOnly.
 Open Scope N_scope.
 
 (* (2) shadow mode: whenever a load transaction runs (it ends with shadowToMain), every application commit of
@@ -38,3 +38,57 @@ Theorem C03_refuted :
             exists a, In a (apps s) /\ pub s < a /\ cap s < a.
 Proof. exact window_breaks_C09_C03. Qed.
 Print Assumptions C03_refuted.
+
+(* a receive-only instance (shadow mode) captures application changes exactly like any other instance: same
+   environment afterwards, same transaction id; the option only suppresses the dump — so the bookkeeping
+   theorems above apply to it unchanged and its application's writes are never reverted either *)
+Theorem C03_receive_only_captures : forall c c2 e now cutoff e' T ds,
+  i_receive_only c = true ->
+  i_native c2 = i_native c -> i_duphack c2 = i_duphack c -> i_padding c2 = i_padding c ->
+  i_cancelled c2 = i_cancelled c -> i_receive_only c2 = false ->
+  send_txn c2 e now cutoff = Ok (e', T, ds) ->
+  send_txn c e now cutoff = Ok (e', T, []).
+Proof. exact send_receive_only_captures. Qed.
+Print Assumptions C03_receive_only_captures.
+
+(* ---- the tie between the two single-instance models ----
+   The theorems above (and C09/C10) are about Instance/Ids.v, the abstract id bookkeeping with all interleavings;
+   the correspondence replays the real syncLoop against Instance/SyncLoop.v, the executable machine. Every atomic
+   step of the executable machine has exactly the shape Ids.step assumes of it (the order of the steps is the same
+   program text in both): *)
+Theorem C03_step_load_txn : forall c e s ls now cutoff e' T lc,
+  load_txn c e s ls now cutoff = Ok (e', T, lc) ->
+  T = e_last e + 1 /\ lc = (ls <? T - 1) /\ (e_last e' = e_last e \/ e_last e' = T).
+Proof. exact load_txn_shape. Qed.
+Theorem C03_step_send_txn : forall c e now cutoff e' T ds,
+  send_txn c e now cutoff = Ok (e', T, ds) ->
+  if i_native c then T = e_last e /\ e' = e
+  else T = e_last e + 1 /\ (e_last e' = e_last e \/ e_last e' = T).
+Proof. exact send_txn_shape. Qed.
+(* at a yield point only application commits happen to the bookkeeping: LastTxnID + 1 each *)
+Theorem C03_step_yield : forall p s,
+  book (yield p s) = book s /\
+  exists k, e_last (l_env (yield p s)) = e_last (l_env s) + k /\
+            k = N.of_nat (length (filter is_app (match l_acts s with [] => [] | a :: _ => a end))).
+Proof. exact yield_shape. Qed.
+(* LoadOnce / SendOnce: transaction, yield, id adjustment against the LastTxnID found after that yield *)
+Theorem C03_step_load_once : forall c s u s' id lc,
+  load_once c s u = (s', Some (id, lc)) ->
+  let s1 := yield P_load_begin s in
+  exists e' T,
+    load_txn c (l_env s1) (u_snap u) (l_synced s1) (now_of s1) 0 = Ok (e', T, lc) /\
+    let s2 := yield P_load_after_txn (set_env s1 e') in
+    id = adjust T (e_last (l_env s2)) /\
+    l_synced s' = l_synced s /\
+    l_env s' = l_env (yield P_load_end s2).
+Proof. exact load_once_shape. Qed.
+Theorem C03_step_send_once : forall c s s' id,
+  send_once c s = (s', Some id) ->
+  let s1 := yield P_send_begin s in
+  exists e' T ds,
+    send_txn c (l_env s1) (now_of s1) 0 = Ok (e', T, ds) /\
+    let s2 := yield P_send_after_txn (set_env s1 e') in
+    id = adjust T (e_last (l_env s2)).
+Proof. exact send_once_shape. Qed.
+Print Assumptions C03_step_load_once.
+Print Assumptions C03_step_send_once.
